@@ -111,6 +111,8 @@ class CentralizedTaskingEngine(TaskingEngine):
                 )
             self._reward_executor.join()
 
+            self.calculateRewards()
+            # [NOTE]: Task priorities scale rows of the reward matrix, so it must be calculated first.
             handleRelevantEvents(
                 self,
                 self._database,
@@ -120,7 +122,6 @@ class CentralizedTaskingEngine(TaskingEngine):
                 self.logger,
                 scope_instance_id=self.unique_id,
             )
-            self.calculateRewards()
             self.generateTasking()
 
             self.logger.debug("Executing tasking strategy...")
